@@ -940,6 +940,12 @@ def _isinst(I, x, c):
         hook = I.lib.get("isinstance:" + n)
         if hook is not None:
             return hook(I, x)
+        if n in ("os.PathLike", "pathlib.PurePath", "pathlib.PosixPath"):
+            # plain python values (strings, numbers, None, containers) are not path objects
+            if x is None or isinstance(x, (str, int, bool, Fraction, float, tuple, list, sx.SDict, SAtom, SReal, SInt,
+                                           SBool)):
+                return False
+            return isinstance(x, Opaque) and x.name == "path"
     raise Unsupported(f"isinstance against {c!r}")
 
 
@@ -1315,6 +1321,35 @@ def install_numpy(I):
         for it in _plain(iterate(I, its)):
             out.extend(_plain(iterate(I, it)))
         return out
+    def lru_cache(I, maxsize=128, typed=False):
+        B = sx.Builtin
+        """functools.lru_cache / functools.cache: a REAL memo (results are remembered per argument values), so that a
+        contract can see what a cached function returns on a later call"""
+        def key_of(v):
+            if v is None or isinstance(v, (str, int, bool, Fraction)):
+                return ("c", v)
+            if isinstance(v, tuple):
+                return ("t",) + tuple(key_of(x) for x in v)
+            if isinstance(v, (SAtom, SInt, SReal, SBool)):
+                return ("s", str(v.term))
+            raise Unsupported("unhashable / unmodelled argument of a memoised function")
+
+        def decorate(I, fn):
+            memo = {}
+
+            def cached(I, *a, **k):
+                key = (tuple(key_of(x) for x in a), tuple(sorted((n_, key_of(x)) for n_, x in k.items())))
+                if key not in memo:
+                    memo[key] = I.call(fn, list(a), dict(k))
+                return memo[key]
+            b = B("lru_cache(" + getattr(fn, "qualname", "f") + ")", cached)
+            b.memo = memo
+            return b
+        if callable(maxsize) or isinstance(maxsize, (sx.FuncVal, sx.Builtin)):     # used as @lru_cache without ()
+            return decorate(I, maxsize)
+        return B("lru_cache.decorator", decorate)
+    L["functools.lru_cache"] = lru_cache
+    L["functools.cache"] = lambda I, fn: lru_cache(I, fn)
     L["itertools.chain.from_iterable"] = chain_from_iterable
     L["itertools.chain"] = lambda I, *its: chain_from_iterable(I, list(its))
     import operator as _op
@@ -1484,7 +1519,7 @@ def install_misc(I):
         I.ghost["warnings"].append(category.name if isinstance(category, sx.ClassVal) else str(category))
     L["warnings.warn"] = warn
     L["collections.OrderedDict"] = lambda I, *a, **k: I.builtins["dict"].fn(I, *a, **k)
-    L["functools.lru_cache"] = lambda I, *a, **k: ("lru_cache_call",)
+    # (functools.lru_cache: real memo model, defined above)
 
     def sig_params(I, fn):
         if isinstance(fn, sx.FuncVal):
